@@ -62,7 +62,7 @@ class WFQ(Scheduler):
             self.update_vtime()
             class_id = self.flow2class(packet.flow_id)
             if self.class_count[class_id] == 0:
-                self.active_set.remove(class_id)
+                self.active_set.discard(class_id)
             if len(self.active_set) == 0:
                 self.reset_vtime()
             self.last_time = env.now
@@ -70,7 +70,11 @@ class WFQ(Scheduler):
     def put(self, packet: Packet):
         class_id = self.flow2class(packet.flow_id)
         now = self.env.now
-        if len(self.active_set) == 0:
+        if self.total_packets == 0:
+            # nothing waiting and nothing in service: a new busy period starts,
+            # also when the last packet left in this very instant and run() has
+            # not pruned active_set yet
+            self.active_set.clear()
             self.reset_vtime()
         else:
             self.update_vtime()
